@@ -99,43 +99,69 @@ DProj(kind, e) ==
 
 \* ret = [yield, lens, rem]: n items taken, exact lengths before each poll,
 \* rem = what the cursor still holds (as shown by Debug / a clone / count)
-DEpisode(D, kind, n, ret, Y) ==          \* Y = the set of entries that were yielded
+\* op = the cursor op: op.fin \in {"none", "nth", "last", "fold"} (op.j for nth) says how the
+\* rest is consumed after the n plain next() calls; F = the entries that call hands to the caller
+DEpisode(D, kind, n, op, ret, Y, F) ==   \* Y = the set of entries that were yielded
   /\ Len(ret.yield) = n /\ DNoRepeat(ret.yield)
   /\ Y \subseteq D /\ Cardinality(Y) = n
   /\ DRange(ret.yield) = {DProj(kind, e) : e \in Y}
   /\ DNoRepeat(ret.rem) /\ DRange(ret.rem) = {DProj(kind, e) : e \in D \ Y}
   /\ Len(ret.rem) = Cardinality(D) - n
   /\ ret.lens = [j \in 1..(n + 1) |-> Cardinality(D) - (j - 1)]
+  /\ LET m == Cardinality(D) - n IN      \* items still to come
+     /\ F \subseteq D \ Y /\ DNoRepeat(ret.fin.r) /\ DRange(ret.fin.r) = {DProj(kind, e) : e \in F}
+     /\ CASE op.fin = "none" -> F = {} /\ ret.fin.some = "nofin" /\ ret.fin.after = m
+          [] op.fin = "nth"  -> IF op.j < m THEN Cardinality(F) = 1 /\ ret.fin.some = "item" /\ ret.fin.after = m - op.j - 1
+                                ELSE F = {} /\ ret.fin.some = "none" /\ ret.fin.after = 0
+          [] op.fin = "last" -> IF m > 0 THEN Cardinality(F) = 1 /\ ret.fin.some = "item" /\ ret.fin.after = 0
+                                ELSE F = {} /\ ret.fin.some = "none" /\ ret.fin.after = 0
+          [] op.fin = "fold" -> F = D \ Y /\ ret.fin.some = "seq" /\ ret.fin.after = 0
 
 DYielded(D, kind, ret) == {e \in D : \E i \in 1..Len(ret.yield) : ret.yield[i] = DProj(kind, e)}
+DTaken(D, kind, ret) == {e \in D : \E i \in 1..Len(ret.fin.r) : ret.fin.r[i] = DProj(kind, e)}
+\* ownership of what a consuming cursor neither yielded nor handed out (G): when the cursor is
+\* dropped all of it is destroyed; when it is forgotten exactly what was still inside leaks and
+\* what a provided method skipped over has been destroyed
+DRestOwnership(G, end, after, dkG, lkG) ==
+  IF end = "drop" THEN dkG = DKT(G) /\ lkG = {}
+  ELSE lkG \subseteq DKT(G) /\ Cardinality(lkG) = after /\ dkG = DKT(G) \ lkG
 
-DDrain(D, kind, n, end, res) ==
-  LET Y == DYielded(D, kind, res.ret)
-      rest == D \ Y IN
+DDrain(D, kind, op, res) ==
+  LET n == op.n
+      Y == DYielded(D, kind, res.ret)
+      F == DTaken(D, kind, res.ret)
+      G == D \ (Y \cup F)
+      gone == {e \in G : e.kt \in res.dk}
+      leak == {e \in G : e.kt \in res.lk} IN
   /\ n <= Cardinality(D)
-  /\ DEpisode(D, kind, n, res.ret, Y)
+  /\ DEpisode(D, kind, n, op, res.ret, Y, F)
   /\ res.post = {}
-  /\ IF end = "drop" THEN res.dk = DKT(rest) /\ res.dv = DVT(rest) /\ res.lk = {} /\ res.lv = {}
-     ELSE res.dk = {} /\ res.dv = {} /\ res.lk = DKT(rest) /\ res.lv = DVT(rest)
+  /\ DRestOwnership(G, op.end, res.ret.fin.after, res.dk, res.lk)
+  /\ res.dv = DVT(gone) /\ res.lv = DVT(leak)
 
-DBorrowCursor(D, kind, n, w, res) ==
-  LET Y == DYielded(D, kind, res.ret) IN
+DBorrowCursor(D, kind, op, w, res) ==
+  LET n == op.n
+      Y == DYielded(D, kind, res.ret) IN
   /\ n <= Cardinality(D)
-  /\ DEpisode(D, kind, n, res.ret, Y)
+  /\ DEpisode(D, kind, n, op, res.ret, Y, DTaken(D, kind, res.ret))
   /\ res.post = IF kind \in {"iter_mut", "values_mut"} THEN (D \ Y) \cup {DWrite(e, w) : e \in Y} ELSE D
   /\ res.dk = {} /\ res.dv = {} /\ res.lk = {} /\ res.lv = {}
 
-DConsumeCursor(D, kind, n, end, res) ==
-  LET Y == DYielded(D, kind, res.ret)
-      rest == D \ Y
-      gone == IF end = "drop" THEN rest ELSE {}
-      leak == IF end = "forget" THEN rest ELSE {} IN
+DConsumeCursor(D, kind, op, res) ==
+  LET n == op.n
+      Y == DYielded(D, kind, res.ret)
+      F == DTaken(D, kind, res.ret)
+      out == Y \cup F                      \* handed to the caller (one half of it for the projections)
+      G == D \ out
+      leak == {e \in G : e.kt \in res.lk}
+      gone == G \ leak IN
   /\ n <= Cardinality(D)
-  /\ DEpisode(D, kind, n, res.ret, Y)
+  /\ DEpisode(D, kind, n, op, res.ret, Y, F)
   /\ res.post = {}
-  /\ res.dk = DKT(gone) \cup (IF kind = "into_values" THEN DKT(Y) ELSE {})
-  /\ res.dv = DVT(gone) \cup (IF kind = "into_keys" THEN DVT(Y) ELSE {})
-  /\ res.lk = DKT(leak) /\ res.lv = DVT(leak)
+  /\ res.lk \subseteq DKT(G) /\ Cardinality(res.lk) = (IF op.end = "forget" THEN res.ret.fin.after ELSE 0)
+  /\ res.dk = DKT(gone) \cup (IF kind = "into_values" THEN DKT(out) ELSE {})
+  /\ res.dv = DVT(gone) \cup (IF kind = "into_keys" THEN DVT(out) ELSE {})
+  /\ res.lv = DVT(leak)
 
 \* --------------------------------------------------------------- entry --
 \* The Entry API must behave like the direct operations on that key.
@@ -253,17 +279,19 @@ DSTake(D, c, res) ==
   ELSE Out(res, <<"none">>, D, {}, {})
 DSRetain(D, keep, res) == Out(res, <<"unit">>, {e \in D : e.c \in keep}, DKT({e \in D : e.c \notin keep}), {})
 DSClear(D, res) == Out(res, <<"unit">>, {}, DKT(D), {})
-DSDrain(D, n, end, res) ==
+DSDrain(D, op, res) ==
   LET Y == DYielded(D, "s_drain", res.ret)
-      rest == D \ Y IN
-  /\ n <= Cardinality(D) /\ DEpisode(D, "s_drain", n, res.ret, Y) /\ res.post = {} /\ res.dv = {} /\ res.lv = {}
-  /\ IF end = "drop" THEN res.dk = DKT(rest) /\ res.lk = {} ELSE res.dk = {} /\ res.lk = DKT(rest)
-DSIter(D, n, res) == DBorrowCursor(D, "s_iter", n, DNoWrite, res)
-DSIntoIter(D, n, end, res) ==
+      F == DTaken(D, "s_drain", res.ret)
+      G == D \ (Y \cup F) IN
+  /\ op.n <= Cardinality(D) /\ DEpisode(D, "s_drain", op.n, op, res.ret, Y, F) /\ res.post = {} /\ res.dv = {} /\ res.lv = {}
+  /\ DRestOwnership(G, op.end, res.ret.fin.after, res.dk, res.lk)
+DSIter(D, op, res) == DBorrowCursor(D, "s_iter", op, DNoWrite, res)
+DSIntoIter(D, op, res) ==
   LET Y == DYielded(D, "s_into_iter", res.ret)
-      rest == D \ Y IN
-  /\ n <= Cardinality(D) /\ DEpisode(D, "s_into_iter", n, res.ret, Y) /\ res.post = {} /\ res.dv = {} /\ res.lv = {}
-  /\ IF end = "drop" THEN res.dk = DKT(rest) /\ res.lk = {} ELSE res.dk = {} /\ res.lk = DKT(rest)
+      F == DTaken(D, "s_into_iter", res.ret)
+      G == D \ (Y \cup F) IN
+  /\ op.n <= Cardinality(D) /\ DEpisode(D, "s_into_iter", op.n, op, res.ret, Y, F) /\ res.post = {} /\ res.dv = {} /\ res.lv = {}
+  /\ DRestOwnership(G, op.end, res.ret.fin.after, res.dk, res.lk)
 DSExtend(D, cap, items, res) == DExtendG(D, cap, items, res, FALSE)
 DSFromIter(cap, items, res) == DFromIterG(cap, items, res, FALSE)
 
@@ -337,11 +365,11 @@ DictAllows(D, cap, op, res) ==
     [] op.name = "clear"            -> DClear(D, res)
     [] op.name = "drop"             -> DClear(D, res)
     [] op.name = "s_drop"           -> DSClear(D, res)
-    [] op.name = "drain"            -> DDrain(D, "drain", op.n, op.end, res)
+    [] op.name = "drain"            -> DDrain(D, "drain", op, res)
     [] op.name = "cursor" /\ op.kind \in {"iter", "iter_mut", "keys", "values", "values_mut"}
-                                    -> DBorrowCursor(D, op.kind, op.n, op.w, res)
+                                    -> DBorrowCursor(D, op.kind, op, op.w, res)
     [] op.name = "cursor" /\ op.kind \in {"into_iter", "into_keys", "into_values"}
-                                    -> DConsumeCursor(D, op.kind, op.n, op.end, res)
+                                    -> DConsumeCursor(D, op.kind, op, res)
     [] op.name = "entry"            -> DEntry(D, cap, op.m, op.k, op.v, op.w, res)
     [] op.name = "disjoint"         -> DDisjoint(D, op.ks, op.w, op.unchecked, res)
     [] op.name \in {"from_iter", "from_array"} -> DFromIter(cap, op.items, res)
@@ -354,9 +382,9 @@ DictAllows(D, cap, op, res) ==
     [] op.name = "s_take"           -> DSTake(D, op.c, res)
     [] op.name = "s_retain"         -> DSRetain(D, op.keep, res)
     [] op.name = "s_clear"          -> DSClear(D, res)
-    [] op.name = "s_drain"          -> DSDrain(D, op.n, op.end, res)
-    [] op.name = "s_iter"           -> DSIter(D, op.n, res)
-    [] op.name = "s_into_iter"      -> DSIntoIter(D, op.n, op.end, res)
+    [] op.name = "s_drain"          -> DSDrain(D, op, res)
+    [] op.name = "s_iter"           -> DSIter(D, op, res)
+    [] op.name = "s_into_iter"      -> DSIntoIter(D, op, res)
     [] op.name = "s_extend"         -> DSExtend(D, cap, op.items, res)
     [] op.name \in {"s_from_iter", "s_from_array"} -> DSFromIter(cap, op.items, res)
     [] op.name = "s_fmt"            -> DFmt(D, res)
